@@ -343,7 +343,9 @@ def _build_spec_object_types(
             else:
                 attid = "NULL-ATTRIBUTE-DEFINITION"
                 dtid = "NULL-DATATYPE"
-            attr_elem.set("IDENTIFIER", f"_{attid}--{attr_def.type}")
+            attr_elem.set(
+                "IDENTIFIER", f"_{attid}.{reqtype}--{attr_def.type}"
+            )
             attr_elem.set("LAST-CHANGE", timestamp)
             _add_common_attributes(attr_def.modelobj, attr_elem)
             if attr_def.type == "ENUMERATION":
@@ -444,15 +446,20 @@ def _build_standard_attribute_values(
 def _build_attribute_values(
     req: rq.Requirement,
 ) -> t.Iterable[etree._Element]:
+    if req.type:
+        reqtype_ref = req.type.uuid.upper()
+    else:
+        reqtype_ref = "NULL-SPEC-OBJECT-TYPE"
     for attr in req.attributes:
         if isinstance(attr, rq.EnumerationValueAttribute):
-            yield _build_attribute_value_enum(attr)
+            yield _build_attribute_value_enum(attr, reqtype_ref)
         else:
-            yield _build_attribute_value_simple(attr)
+            yield _build_attribute_value_simple(attr, reqtype_ref)
 
 
 def _build_attribute_value_simple(
     attr: rq.AbstractRequirementsAttribute,
+    reqtype_ref: str,
 ) -> etree._Element:
     attrtype = _attrtype2reqif(attr)
     obj = etree.Element(f"ATTRIBUTE-VALUE-{attrtype}")
@@ -483,16 +490,23 @@ def _build_attribute_value_simple(
         obj.set("THE-VALUE", attr.value or "")
     else:
         raise ValueError(f"Unknown attribute type {attrtype}")
-    obj.append(_ref_attribute_definition(attrtype, attr.definition))
+    obj.append(
+        _ref_attribute_definition(attrtype, attr.definition, reqtype_ref)
+    )
     return obj
 
 
 def _build_attribute_value_enum(
     attribute: rq.AbstractRequirementsAttribute,
+    reqtype_ref: str,
 ) -> etree._Element:
     obj = etree.Element("ATTRIBUTE-VALUE-ENUMERATION")
 
-    obj.append(_ref_attribute_definition("ENUMERATION", attribute.definition))
+    obj.append(
+        _ref_attribute_definition(
+            "ENUMERATION", attribute.definition, reqtype_ref
+        )
+    )
 
     obj.append(values := etree.Element("VALUES"))
     for i in attribute.values:
@@ -577,12 +591,13 @@ def _build_specifications(
 
 
 def _ref_attribute_definition(
-    type: str, adef: rq.AttributeDefinition | None
+    type: str, adef: rq.AttributeDefinition | None, reqtype_ref: str
 ) -> etree._Element:
     if adef is not None:
-        reftext = f"_{adef.uuid.upper()}--{type}"
+        attid = adef.uuid.upper()
     else:
-        reftext = f"_NULL-ATTRIBUTE-DEFINITION--{type}"
+        attid = "NULL-ATTRIBUTE-DEFINITION"
+    reftext = f"_{attid}.{reqtype_ref}--{type}"
     definition = etree.Element("DEFINITION")
     ref = etree.Element(f"ATTRIBUTE-DEFINITION-{type}-REF")
     ref.text = reftext
